@@ -124,6 +124,21 @@ pub fn rx<'a>() -> impl Parser<'a, &'a str, Val, ExS<'a>> + Clone + Send + Sync 
     word.or(number).padded().repeated().at_least(1).collect::<Vec<Val>>().map(Val::Seq).then_ignore(end())
 }
 
+/// Sync-capable: a second regex grammar with other patterns in another order (several different
+/// regex-bearing parsers must be able to coexist on one thread, wherever each was built).
+pub fn rx2<'a>() -> impl Parser<'a, &'a str, Val, ExS<'a>> + Clone + Send + Sync {
+    let number = chumsky::regex::regex::<&'a str, ExS<'a>>("[0-9]+").map(|s: &'a str| {
+        hook::cb();
+        Val::Num(num_of(s))
+    });
+    let upper = chumsky::regex::regex::<&'a str, ExS<'a>>("[A-Z][a-z]*").map_with(|s: &'a str, e: &mut ME<'a, '_>| {
+        hook::cb();
+        Val::Span(e.span().norm(), Box::new(Val::Num(s.len() as u64)))
+    });
+    let punct = chumsky::regex::regex::<&'a str, ExS<'a>>("[-+*/]").to(Val::Unit);
+    choice((number, upper, punct)).padded().repeated().at_least(1).collect::<Vec<Val>>().map(Val::Seq).then_ignore(end())
+}
+
 /// Sync-capable: validation that emits (secondary errors) and skip-recovery inside a repetition.
 pub fn valid<'a>() -> impl Parser<'a, &'a str, Val, ExS<'a>> + Clone + Send + Sync {
     let byte = text::int(10).validate(|s: &'a str, e: &mut ME<'a, '_>, em| {
@@ -184,9 +199,9 @@ pub fn sexp<'a>() -> impl Parser<'a, &'a str, Val, ExS<'a>> + Clone {
     node.padded().then_ignore(end())
 }
 
-pub const ZOO_NAMES: [&str; 7] = ["memo", "pratt", "rx", "valid", "list", "arith", "sexp"];
+pub const ZOO_NAMES: [&str; 8] = ["memo", "pratt", "rx", "valid", "rx2", "list", "arith", "sexp"];
 /// The first ZOO_SYNC grammars are Send + Sync.
-pub const ZOO_SYNC: usize = 4;
+pub const ZOO_SYNC: usize = 5;
 
 /// Input pools: accepted, rejected, recovered and memo-heavy strings for each zoo grammar.
 pub fn pool(z: usize) -> &'static [&'static str] {
@@ -195,8 +210,9 @@ pub fn pool(z: usize) -> &'static [&'static str] {
         1 => &["1+2*3", "-1^2^3!", "1 + ", "2 * (3", "4!!+5", "1+2+3+4", "^", "7"],
         2 => &["abc 12 x9", "12.5 foo", "abc !", "a1 b2 c3 d4", "", "9.", "zzz"],
         3 => &["1 2 3;", "1 300 2;", "1 x 2;", "999 999;", "1 2", ";", "12 @@ 7;", "1 300 2", "999 x"],
-        4 => &["[a, bc, d]", "[a, (b, c]", "[a,, b]", " [ x1 , y2 , ] ", "[", "[a b]", "[]", "[[a], b]"],
-        5 => &["1+2*3", "(1+2)*3", "((((4))))", "1+(2*", "2*/3", "1 + 2 - 3 * 4 / 5", "()", "((1)"],
+        4 => &["12 Abc + 7", "Foo-Bar", "abc", "1 2 3", "", "X * 99 / Yz", "12.5"],
+        5 => &["[a, bc, d]", "[a, (b, c]", "[a,, b]", " [ x1 , y2 , ] ", "[", "[a b]", "[]", "[[a], b]"],
+        6 => &["1+2*3", "(1+2)*3", "((((4))))", "1+(2*", "2*/3", "1 + 2 - 3 * 4 / 5", "()", "((1)"],
         _ => &["(a b c)", "(a (b c) d)", "(a [b) c)", "((", "a", "(a (b [c] d) e)", "()", "(a))"],
     }
 }
